@@ -521,5 +521,19 @@ def exG : CFG where
   S := "S"
   R := [⟨"S", 0, [.t "a", .v "S", .t "b"]⟩, ⟨"S", 1, []⟩, ⟨"S", 2, [.v "T"]⟩, ⟨"T", 3, [.t "c"]⟩]
 
+/-- S → XB | a, X → a, B → b: a CNF grammar equivalent to `C07.exG` -/
+def exCnf : CFG where
+  V := ["S", "X", "B"]
+  Sigma := ["a", "b"]
+  S := "S"
+  R := [⟨"S", 0, [.v "X", .v "B"]⟩, ⟨"S", 1, [.t "a"]⟩, ⟨"X", 2, [.t "a"]⟩, ⟨"B", 3, [.t "b"]⟩]
+
+/-- the same without S → a: the word `a` is missing -/
+def exCnfMissing : CFG where
+  V := ["S", "X", "B"]
+  Sigma := ["a", "b"]
+  S := "S"
+  R := [⟨"S", 0, [.v "X", .v "B"]⟩, ⟨"X", 2, [.t "a"]⟩, ⟨"B", 3, [.t "b"]⟩]
+
 end C12b
 end Gamba
